@@ -1,6 +1,7 @@
 // Conformance harness, family "fit" (property C14): executes fit_spline_1d, fit_spline, fit_bspline,
 // dubins_curve and reparameterize_spline of the real library on generated inputs and records every
-// operand and result exactly (ndjson).  TLC validates the trace with spec/TraceFit.tla.
+// operand and result exactly (ndjson).  TLC validates the trace with spec/TraceFit.tla.  Every library call runs in a
+// forked child process; a call that does not return normally is recorded as such (field "status").
 // The harness never judges a result.  It *proposes* inputs (time-stamp patterns, data, targets), sample
 // times (knots read from the returned Spline are used only to decide where to evaluate the public
 // operator()) and - for the Dubins minimality clause - candidate words computed by an independent textbook
@@ -162,6 +163,39 @@ std::vector<double> tovec(const Eigen::MatrixBase<D> & v)
   return r;
 }
 
+// Every library call runs in a forked child: the parent has already put all inputs into the event; the child runs
+// the call, appends what it observed and writes the event.  If the child does not finish normally (signal, sanitizer
+// abort, uncaught exception, 120 s alarm) the parent writes the inputs with the wait status instead - the harness
+// still only records what happened, and the trace specification turns "did not return" into a verdict.
+template<typename F>
+void guarded(Sink & sink, Ev & e, F && body)
+{
+  std::fflush(sink.f);
+  const pid_t pid = fork();
+  if (pid == 0) {
+    if (!std::freopen("/dev/null", "w", stderr)) {}
+    std::set_terminate([]() { _exit(70); });
+    alarm(120);
+    e.num("status", 0);
+    body(e);
+    sink.emit(e);
+    std::fflush(sink.f);
+    _exit(0);
+  }
+  int st = 0;
+  if (pid < 0 || waitpid(pid, &st, 0) != pid) {
+    std::fprintf(stderr, "fork/waitpid failed\n");
+    std::exit(2);
+  }
+  if (!(WIFEXITED(st) && WEXITSTATUS(st) == 0)) {
+    const long code = WIFSIGNALED(st) ? 1000 + WTERMSIG(st) : WEXITSTATUS(st);
+    e.num("status", code == 0 ? -1 : code);
+    sink.emit(e);
+    std::fflush(sink.f);
+  }
+  ++sink.count;
+}
+
 // 1-based positions of the knots inside the sorted list of evaluation times
 inline std::string knot_indices(const std::vector<double> & knots, const std::vector<double> & times)
 {
@@ -290,10 +324,12 @@ void fit1d_case(Sink & sink, Rng & r, int i)
   std::vector<double> lv, rv;
   for (const auto & v : ss.left_values) lv.push_back(v.x());
   for (const auto & v : ss.rght_values) rv.push_back(v.x());
-  const Eigen::VectorXd x = smooth::fit_spline_1d(dts, dxs, ss);
   Ev e;
-  e.str("op", "fit1d").raw("spec", D::json()).vec("lv", lv).vec("rv", rv).vec("dt", dts).vec("dx", dxs).vec("x", x);
-  sink.emit(e);
+  e.str("op", "fit1d").raw("spec", D::json()).vec("lv", lv).vec("rv", rv).vec("dt", dts).vec("dx", dxs);
+  guarded(sink, e, [&](Ev & ev) {
+    const Eigen::VectorXd x = smooth::fit_spline_1d(dts, dxs, ss);
+    ev.vec("x", x);
+  });
 }
 
 // ------------------------------------------------------------------------------------------------
@@ -335,29 +371,31 @@ void fit_case(Sink & sink, Rng & r, int i)
     for (int q = 0; q < v.size(); ++q) lv.push_back(v(q));
   for (const auto & v : ss.rght_values)
     for (int q = 0; q < v.size(); ++q) rv.push_back(v(q));
-  const auto c = smooth::fit_spline(ts, gs, ss);
-  // evaluate at every time stamp (relative to the first one) and at its two floating-point neighbours
-  std::vector<std::vector<double>> pv, cv, sv, pw, cw, sw;
-  const double inf = std::numeric_limits<double>::infinity();
-  for (std::size_t k = 0; k < N; ++k) {
-    const double t = ts[k] - ts[0];
-    Tan w;
-    G v = c(std::nextafter(t, -inf), w);
-    pv.push_back(GDsc::coeffs(v));
-    pw.push_back(tovec(w));
-    v = c(t, w);
-    cv.push_back(GDsc::coeffs(v));
-    cw.push_back(tovec(w));
-    v = c(std::nextafter(t, inf), w);
-    sv.push_back(GDsc::coeffs(v));
-    sw.push_back(tovec(w));
-  }
   Ev e;
   e.str("op", "fit").raw("g", GDsc::json()).raw("spec", D::json()).vec("lv", lv).vec("rv", rv).vec("t", ts);
-  e.raw("gs", jlist(gcs)).raw("d", jlist(ds)).dbl("tmax", c.t_max());
-  e.raw("pv", jlist(pv)).raw("cv", jlist(cv)).raw("sv", jlist(sv));
-  e.raw("pw", jlist(pw)).raw("cw", jlist(cw)).raw("sw", jlist(sw));
-  sink.emit(e);
+  e.raw("gs", jlist(gcs)).raw("d", jlist(ds));
+  guarded(sink, e, [&](Ev & ev) {
+    const auto c = smooth::fit_spline(ts, gs, ss);
+    // evaluate at every time stamp (relative to the first one) and at its two floating-point neighbours
+    std::vector<std::vector<double>> pv, cv, sv, pw, cw, sw;
+    const double inf = std::numeric_limits<double>::infinity();
+    for (std::size_t k = 0; k < N; ++k) {
+      const double t = ts[k] - ts[0];
+      Tan w;
+      G v = c(std::nextafter(t, -inf), w);
+      pv.push_back(GDsc::coeffs(v));
+      pw.push_back(tovec(w));
+      v = c(t, w);
+      cv.push_back(GDsc::coeffs(v));
+      cw.push_back(tovec(w));
+      v = c(std::nextafter(t, inf), w);
+      sv.push_back(GDsc::coeffs(v));
+      sw.push_back(tovec(w));
+    }
+    ev.dbl("tmax", c.t_max());
+    ev.raw("pv", jlist(pv)).raw("cv", jlist(cv)).raw("sv", jlist(sv));
+    ev.raw("pw", jlist(pw)).raw("cw", jlist(cw)).raw("sw", jlist(sw));
+  });
 }
 
 template<typename G>
@@ -373,9 +411,8 @@ void fit_family(Sink & sink, Rng & r, int n, bool vectors, int off)
 }
 
 // ------------------------------------------------------------------------------------------------
-// part 5: fit_bspline.  Every call runs in a forked child (this part is built with AddressSanitizer): if the
-// call does not return normally (signal, sanitizer abort) the parent records the inputs and the wait status
-// instead of a result - the harness still only records what happened.
+// part 5: fit_bspline (this part is built with AddressSanitizer, so that an out-of-bounds access ends the child
+// instead of silently corrupting the heap)
 template<int K, typename G>
 void bspline_case(Sink & sink, Rng & r, int i)
 {
@@ -400,29 +437,10 @@ void bspline_case(Sink & sink, Rng & r, int i)
   for (std::size_t k = 0; k + 1 < N; ++k) gs[k + 1] = smooth::rplus(gs[k], Tan(GDsc::tangent(r, r.uni(0, 0.5), 0.5)));
   Ev e;
   e.str("op", "bspline").raw("g", GDsc::json()).num("K", K).vec("t", ts).dbl("dt", dt);
-  std::fflush(sink.f);
-  const pid_t pid = fork();
-  if (pid == 0) {
-    // child: silence the sanitizer's report, run the call, write the complete event
-    if (!std::freopen("/dev/null", "w", stderr)) {}
+  guarded(sink, e, [&](Ev & ev) {
     const auto b = smooth::fit_bspline<K>(ts, gs, dt);
-    e.num("status", 0).dbl("tmin", b.t_min()).dbl("tmax", b.t_max()).num("npts", static_cast<long>(b.ctrl_pts().size()));
-    sink.emit(e);
-    std::fflush(sink.f);
-    _exit(0);
-  }
-  int st = 0;
-  if (pid < 0 || waitpid(pid, &st, 0) != pid) {
-    std::fprintf(stderr, "fork/waitpid failed\n");
-    std::exit(2);
-  }
-  if (!(WIFEXITED(st) && WEXITSTATUS(st) == 0)) {
-    const long code = WIFSIGNALED(st) ? 1000 + WTERMSIG(st) : WEXITSTATUS(st);
-    e.num("status", code == 0 ? -1 : code).dbl("tmin", 0.).dbl("tmax", 0.).num("npts", 0);
-    sink.emit(e);
-    std::fflush(sink.f);
-  }
-  ++sink.count;
+    ev.dbl("tmin", b.t_min()).dbl("tmax", b.t_max()).num("npts", static_cast<long>(b.ctrl_pts().size()));
+  });
 }
 
 // ------------------------------------------------------------------------------------------------
@@ -527,27 +545,6 @@ template<int K>
 void dubins_case(Sink & sink, double x, double y, double th, double R, const char * kind)
 {
   const smooth::SE2d target(smooth::SO2d(th), Eigen::Vector2d(x, y));
-  const auto c     = smooth::dubins_curve<K>(target, R);
-  const auto knots = knots_of(c);
-  const double inf = std::numeric_limits<double>::infinity();
-  // evaluation times: every knot, the double just before every later knot, the middle of every piece
-  std::vector<double> times;
-  for (std::size_t j = 0; j + 1 < knots.size(); ++j) {
-    const double a = knots[j], b = knots[j + 1];
-    times.push_back(a);
-    times.push_back(a + (b - a) / 2);
-    times.push_back(std::nextafter(b, -inf));
-  }
-  times.push_back(knots.back());
-  std::sort(times.begin(), times.end());
-  times.erase(std::unique(times.begin(), times.end()), times.end());
-  std::vector<std::vector<double>> vals, vels;
-  for (double t : times) {
-    Eigen::Vector3d w;
-    const smooth::SE2d v = c(t, w);
-    vals.push_back(GD<smooth::SE2d>::coeffs(v));
-    vels.push_back(tovec(w));
-  }
   // candidates (lengths in the units of the problem)
   const auto cands = textbook_dubins(x, y, th, R);
   std::string cj   = "[";
@@ -565,12 +562,34 @@ void dubins_case(Sink & sink, double x, double y, double th, double R, const cha
   }
   cj += "]";
   Ev e;
-  e.str("op", "dubins").str("kind", kind).num("K", K).vec("target", GD<smooth::SE2d>::coeffs(target)).dbl("R", R);
-  e.num("size", static_cast<long>(c.size())).dbl("tmax", c.t_max());
-  e.vec("start", GD<smooth::SE2d>::coeffs(c.start())).vec("end", GD<smooth::SE2d>::coeffs(c.end()));
-  e.vec("knots", knots).raw("ki", knot_indices(knots, times)).vec("ts", times);
-  e.raw("vals", jlist(vals)).raw("vels", jlist(vels)).raw("cands", cj);
-  sink.emit(e);
+  e.str("op", "dubins").str("kind", kind).num("K", K).vec("target", GD<smooth::SE2d>::coeffs(target)).dbl("R", R).raw("cands", cj);
+  guarded(sink, e, [&](Ev & ev) {
+    const auto c     = smooth::dubins_curve<K>(target, R);
+    const auto knots = knots_of(c);
+    const double inf = std::numeric_limits<double>::infinity();
+    // evaluation times: every knot, the double just before every later knot, the middle of every piece
+    std::vector<double> times;
+    for (std::size_t j = 0; j + 1 < knots.size(); ++j) {
+      const double a = knots[j], b = knots[j + 1];
+      times.push_back(a);
+      times.push_back(a + (b - a) / 2);
+      times.push_back(std::nextafter(b, -inf));
+    }
+    times.push_back(knots.back());
+    std::sort(times.begin(), times.end());
+    times.erase(std::unique(times.begin(), times.end()), times.end());
+    std::vector<std::vector<double>> vals, vels;
+    for (double t : times) {
+      Eigen::Vector3d w;
+      const smooth::SE2d v = c(t, w);
+      vals.push_back(GD<smooth::SE2d>::coeffs(v));
+      vels.push_back(tovec(w));
+    }
+    ev.num("size", static_cast<long>(c.size())).dbl("tmax", c.t_max());
+    ev.vec("start", GD<smooth::SE2d>::coeffs(c.start())).vec("end", GD<smooth::SE2d>::coeffs(c.end()));
+    ev.vec("knots", knots).raw("ki", knot_indices(knots, times)).vec("ts", times);
+    ev.raw("vals", jlist(vals)).raw("vels", jlist(vels));
+  });
 }
 
 inline void dubins_family(Sink & sink, Rng & r, int n)
@@ -628,45 +647,45 @@ template<typename C, typename Vec>
 void reparam_case(
   Sink & sink, const char * kind, const C & c, const Vec & vmin, const Vec & vmax, const Vec & amin, const Vec & amax, double sv, double ev, int N)
 {
-  auto s           = smooth::reparameterize_spline(c, vmin, vmax, amin, amax, sv, ev, static_cast<std::size_t>(N));
-  const auto knots = knots_of(s);
-  const double T   = s.t_max();
-  const double inf = std::numeric_limits<double>::infinity();
-  std::vector<double> times;
-  if (std::isfinite(T)) {
-    for (std::size_t j = 0; j + 1 < knots.size(); ++j) {
-      const double a = knots[j], b = knots[j + 1];
-      times.push_back(a);
-      times.push_back(a + (b - a) / 2);
-      times.push_back(std::nextafter(b, -inf));
-    }
-    times.push_back(T);
-    for (int k = 0; k <= 48; ++k) times.push_back(T * k / 48.);
-    std::sort(times.begin(), times.end());
-    times.erase(std::unique(times.begin(), times.end()), times.end());
-    times.erase(std::remove_if(times.begin(), times.end(), [&](double t) { return !(t >= 0 && t <= T); }), times.end());
-  } else {
-    times = {0.};
-  }
-  std::vector<double> sval, sd, sdd;
-  for (double t : times) {
-    Eigen::Matrix<double, 1, 1> d1, d2;
-    const double v = s(t, d1, d2);
-    sval.push_back(v);
-    sd.push_back(d1(0));
-    sdd.push_back(d2(0));
-  }
-  const double past = s(std::isfinite(T) ? T + 1e-6 : 1e300);
   // body velocity and acceleration of the input curve at its first instant (stratum: does it stand still there?)
   Vec w0, a0;
   c(c.t_min(), w0, a0);
   Ev e;
   e.str("op", "reparam").str("kind", kind).num("N", N).dbl("s0", c.t_min()).dbl("sf", c.t_max()).dbl("sv", sv).dbl("ev", ev);
-  e.vec("vmin", vmin).vec("vmax", vmax).vec("amin", amin).vec("amax", amax);
-  e.num("size", static_cast<long>(s.size())).dbl("T", T).dbl("past", past);
-  e.vec("w0", w0).vec("a0", a0);
-  e.vec("knots", knots).raw("ki", knot_indices(knots, times)).vec("ts", times).vec("s", sval).vec("ds", sd).vec("dds", sdd);
-  sink.emit(e);
+  e.vec("vmin", vmin).vec("vmax", vmax).vec("amin", amin).vec("amax", amax).vec("w0", w0).vec("a0", a0);
+  guarded(sink, e, [&](Ev & evt) {
+    auto s           = smooth::reparameterize_spline(c, vmin, vmax, amin, amax, sv, ev, static_cast<std::size_t>(N));
+    const auto knots = knots_of(s);
+    const double T   = s.t_max();
+    const double inf = std::numeric_limits<double>::infinity();
+    std::vector<double> times;
+    if (std::isfinite(T)) {
+      for (std::size_t j = 0; j + 1 < knots.size(); ++j) {
+        const double a = knots[j], b = knots[j + 1];
+        times.push_back(a);
+        times.push_back(a + (b - a) / 2);
+        times.push_back(std::nextafter(b, -inf));
+      }
+      times.push_back(T);
+      for (int k = 0; k <= 48; ++k) times.push_back(T * k / 48.);
+      std::sort(times.begin(), times.end());
+      times.erase(std::unique(times.begin(), times.end()), times.end());
+      times.erase(std::remove_if(times.begin(), times.end(), [&](double t) { return !(t >= 0 && t <= T); }), times.end());
+    } else {
+      times = {0.};
+    }
+    std::vector<double> sval, sd, sdd;
+    for (double t : times) {
+      Eigen::Matrix<double, 1, 1> d1, d2;
+      const double v = s(t, d1, d2);
+      sval.push_back(v);
+      sd.push_back(d1(0));
+      sdd.push_back(d2(0));
+    }
+    const double past = s(std::isfinite(T) ? T + 1e-6 : 1e300);
+    evt.num("size", static_cast<long>(s.size())).dbl("T", T).dbl("past", past);
+    evt.vec("knots", knots).raw("ki", knot_indices(knots, times)).vec("ts", times).vec("s", sval).vec("ds", sd).vec("dds", sdd);
+  });
 }
 
 inline void reparam_family(Sink & sink, Rng & r, int n)
